@@ -177,9 +177,13 @@ class TransmissionGenerator:
             userdata_slice: bytes = userdata[
                 i * octets_per_block : i * octets_per_block + octets_per_block
             ]
-            block_type = last_slice_type if i == (num_bursts - 1) else slice_type
+            is_last_block = i == (num_bursts - 1)
+            block_type = last_slice_type if is_last_block else slice_type
             block = packet_type(
-                packet_type=block_type, data=userdata_slice, crc32=userdata_crc32
+                packet_type=block_type,
+                data=userdata_slice,
+                # only the last block carries (and covers with its CRC-9) the CRC-32
+                crc32=userdata_crc32 if is_last_block else 0,
             )
             # TODO better burst from contained data init
             burst = Burst(burst_type=BurstTypes.DataAndControl)
